@@ -253,7 +253,7 @@ META = {
             "with every override/replace combination on repeated prefixes and nested namespaces, interleaved with every compaction API, "
             "Turtle parse/serialize and reset(), fingerprinting the qname cache and tries. The bijection invariant is evaluated in every "
             "state and every compaction result must use a currently bound prefix and expand back to the IRI asked about.",
-    "note": "Small scope: 4 prefixes incl. the empty one, 4 namespaces (nested, '/', '#'), 5 IRIs; depth 3 (quick) / 4 (thorough) on the full "
+    "note": "Small scope: 4 prefixes incl. the empty one, 5 namespaces (nested, '/', '#', the empty one), 5 IRIs, parses of Turtle / RDF-XML / TriG / N3 / JSON-LD documents that bind prefixes; depth 3 (quick) / 4 (thorough) on the full "
             "alphabet, 4 / 5 on the bind+qname sub-alphabet; which prefix the policy picks is not constrained.",
     "technique": "explicit-state BFS over bind/compaction histories of the real NamespaceManager with an invariant oracle",
 }
